@@ -50,6 +50,10 @@ type Case struct {
 	Adj     uint8  `json:"adj"`
 	// generator
 	Factors []Factor `json:"factors,omitempty"`
+	// SetTransformEmpty: call SetTransform() with no factors (identity) instead of not calling it.
+	SetTransformEmpty bool `json:"set_transform_empty,omitempty"`
+	// Second: another path given to the same Generator afterwards, under its own transform.
+	Second *Case `json:"second,omitempty"`
 	// converter
 	Size    ops.F32    `json:"size,omitempty"`
 	Offset  [2]ops.F32 `json:"offset,omitempty"`
@@ -239,7 +243,7 @@ func checkPathData(c Case) error {
 				}
 			}
 		}
-		if len(affs) > 0 {
+		if len(affs) > 0 || c.SetTransformEmpty {
 			g.SetTransform(affs...)
 		}
 		m := func(axis int, x float64, rel bool) (float64, float64) {
@@ -257,7 +261,28 @@ func checkPathData(c Case) error {
 		if err := g.SetPathData(c.D, c.Adj); err != nil {
 			return harness.Violatef("c20/error", "SetPathData(%q) returned %v for a well-formed path", c.D, err)
 		}
-		return compare(rec.Ops, want, fmt.Sprintf("SetPathData(%q)", c.D))
+		if err := compare(rec.Ops, want, fmt.Sprintf("SetPathData(%q)", c.D)); err != nil {
+			return err
+		}
+		if c.Second != nil {
+			// the same Generator, another transform, another path
+			first := len(rec.Ops)
+			s2, t2, m2, want2, err := generatorExpect(*c.Second)
+			if err != nil {
+				return err
+			}
+			_, _, _ = s2, t2, m2
+			var affs2 []generate.Aff3
+			for _, f := range c.Second.Factors {
+				affs2 = append(affs2, f.aff())
+			}
+			g.SetTransform(affs2...)
+			if err := g.SetPathData(c.Second.D, c.Second.Adj); err != nil {
+				return harness.Violatef("c20/error", "second SetPathData(%q) returned %v", c.Second.D, err)
+			}
+			return compare(rec.Ops[first:], want2, fmt.Sprintf("second SetPathData(%q) on the same Generator", c.Second.D))
+		}
+		return nil
 	case "converter":
 		size, outSize := float64(float32(c.Size)), float64(float32(c.OutSize))
 		off := [2]float64{float64(float32(c.Offset[0])), float64(float32(c.Offset[1]))}
@@ -279,6 +304,44 @@ func checkPathData(c Case) error {
 		return compare(rec.Ops, want, fmt.Sprintf("ParsePathData(%q)", c.D))
 	}
 	return fmt.Errorf("bad dialect")
+}
+
+// generatorExpect computes the expected ops of a generator-dialect case whose
+// transform is set explicitly (possibly with no factors).
+func generatorExpect(c Case) (s, tr, mag [2]float64, want []exp, err error) {
+	s = [2]float64{1, 1}
+	for _, f := range c.Factors {
+		v := func(i int) float64 { return float64(float32(f.V[i])) }
+		switch f.Kind {
+		case "scale1":
+			for a := 0; a < 2; a++ {
+				s[a] *= v(0)
+				tr[a] *= v(0)
+				mag[a] *= math.Abs(v(0))
+			}
+		case "scale2":
+			for a := 0; a < 2; a++ {
+				s[a] *= v(a)
+				tr[a] *= v(a)
+				mag[a] *= math.Abs(v(a))
+			}
+		default:
+			for a := 0; a < 2; a++ {
+				tr[a] += v(a)
+				mag[a] += math.Abs(v(a))
+			}
+		}
+	}
+	m := func(axis int, x float64, rel bool) (float64, float64) {
+		if rel {
+			return x * s[axis], math.Abs(x * s[axis])
+		}
+		return x*s[axis] + tr[axis], math.Abs(x*s[axis]) + mag[axis] + math.Abs(tr[axis])
+	}
+	radius := func(axis int, x float64) (float64, float64) { return x * s[axis], math.Abs(x * s[axis]) }
+	want, err = expected(c.Cmds, c.Adj, m, radius)
+	want = append(want, exp{k: ops.ClosePathEndPath})
+	return
 }
 
 var subPath = harness.Define("path-data", "grammar-generated SVG path strings in each front end's dialect (every verb, every separator style the dialect allows, implicit repetition, sub-paths joined by z+M/m) x scale-and-translate transforms (generator: 0-3 Scale/Translate factors; converter: size, offset, outSize) x ADJ 0-6: the ops recorded from Generator.SetPathData / mdicons.ParsePathData equal the path's own structure interpreted by the stated rules, numbers within 4*eps32*sum|terms|; non-trivial = has an implicit repetition, a second sub-path or a relative verb under a non-identity transform", checkPathData)
@@ -473,6 +536,16 @@ func TestGeneratorDialect(t *testing.T) {
 		c.D = render(t, cmds, "generator")
 		if len(c.Factors) > 0 {
 			labels = append(labels, "transform")
+		} else if rapid.Bool().Draw(t, "emptytransform") {
+			c.SetTransformEmpty = true
+			labels = append(labels, "SetTransform-without-factors")
+		}
+		if rapid.IntRange(0, 3).Draw(t, "second") == 0 {
+			cmds2, _ := genCmds(t, true, true, true)
+			sc := Case{Dialect: "generator", Cmds: cmds2, Adj: uint8(rapid.IntRange(0, 6).Draw(t, "adj2")), Factors: genFactors(t)}
+			sc.D = render(t, cmds2, "generator")
+			c.Second = &sc
+			labels = append(labels, "second-path-on-the-same-generator")
 		}
 		subPath.See(c, len(labels) > 0, harness.Hash([]byte(c.D), []byte(fmt.Sprint(c.Factors, c.Adj))), append(labels, "dialect=generator")...)
 		subPath.Run(t, c)
